@@ -322,6 +322,16 @@ pub fn canonical(p: &Payload) -> Payload {
             continue;
         }
         let mut c = c.clone();
+        // (a block covers at least one clock)
+        for b in c.blocks.iter_mut() {
+            match b {
+                PBlock::Skip(n) | PBlock::Gc(n) => *n = (*n).max(1),
+                PBlock::Item { content: PContent::Deleted(n), .. } => *n = (*n).max(1),
+                // (type references the builder knows: array, map, text, XML element, fragment, XML text)
+                PBlock::Item { content: PContent::Type(t, _), .. } => *t = [0u8, 1, 2, 3, 4, 6][*t as usize % 6],
+                _ => {}
+            }
+        }
         while matches!(c.blocks.first(), Some(PBlock::Skip(_))) {
             c.blocks.remove(0);
         }
